@@ -23,6 +23,8 @@ DROPPED = ['file-scope statics (sSeed, sRandCount, sYieldFrequency, ...) and the
            'sources of run-to-run variation are mapped to fresh non-deterministic values per run: clocks (NONDET_CLOCK), std::random_device / rand (NONDET_RD), pointer-to-integer casts (NONDET_ADDR), thread ids']
 ASSUMPTIONS = ['the random list pick width is below 2^31 (2 * pick does not wrap)', 'configuration values used as moduli are >= 1 (SetFaultFrequency(0) / SetFaultSleepTime(0) make GetRandNumber compute % 0: observed, outside the quantified configurations)',
                'YACLIB_FAULT == 2 (FIBER) branch of the preprocessor conditionals']
+# real-code drivers that exercise what this unit proves (thorough tier: sanity run on the tree under check)
+DRIVERS = [('reseed.cpp', [], 'fiber')]
 
 STATE = r'''
 #include "vf.h"
